@@ -128,47 +128,92 @@ def _to_list_builder(fn: ast.FunctionDef) -> bool:
     return True
 
 
-def _fusable(fn: ast.FunctionDef) -> Optional[Tuple[ast.For, List[ast.stmt], ast.AST]]:
+def _yield_path(fn: ast.FunctionDef) -> Optional[Tuple[ast.For, List[Tuple[List[ast.stmt], int]], int]]:
+    """(the single top-level loop, the chain of (block, index) leading to the one `yield` statement, number of loops around it) when the
+    generator is one `for` whose iterations end with the yield: every statement on the way is the last one of its block, and is an `if`
+    or a `for`. Nothing runs between the yield and the next iteration, so resuming the generator is continuing the loop."""
     body = list(fn.body)
     if body and isinstance(body[0], ast.Expr) and isinstance(body[0].value, ast.Constant) and isinstance(body[0].value.value, str):
         body = body[1:]
     if len(body) != 1 or not isinstance(body[0], ast.For) or body[0].orelse:
         return None
     loop = body[0]
-    if not loop.body or not (isinstance(loop.body[-1], ast.Expr) and isinstance(loop.body[-1].value, ast.Yield)):
+    ys = [n for n in _own_nodes(fn) if isinstance(n, (ast.Yield, ast.YieldFrom))]
+    if len(ys) != 1 or not isinstance(ys[0], ast.Yield):
         return None
-    guards = loop.body[:-1]
-    for g in guards:
-        for n in ast.walk(g):
-            if isinstance(n, (ast.Yield, ast.YieldFrom, ast.FunctionDef, ast.AsyncFunctionDef, ast.Lambda, ast.ClassDef)):
-                return None
-            if isinstance(n, ast.Return) and n.value is not None:
-                return None
-        # a return / break inside a nested loop of a guard cannot be mapped onto the fused loop
-        for n in ast.walk(g):
-            if isinstance(n, (ast.For, ast.While)) and any(isinstance(x, ast.Return) for x in ast.walk(n)):
-                return None
     if any(isinstance(n, (ast.Yield, ast.YieldFrom)) for n in ast.walk(loop.iter)):
         return None
-    y = loop.body[-1].value.value
-    return loop, guards, (y if y is not None else ast.Constant(None))
+    chain: List[Tuple[List[ast.stmt], int]] = []
+    depth = 1
+    block = loop.body
+    while True:
+        if not block:
+            return None
+        last = block[-1]
+        chain.append((block, len(block) - 1))
+        if any(isinstance(n, (ast.Yield, ast.YieldFrom)) for st in block[:-1] for n in ast.walk(st)):
+            return None
+        if isinstance(last, ast.Expr) and last.value is ys[0]:
+            break
+        if isinstance(last, ast.If):
+            in_body = any(n is ys[0] for st in last.body for n in ast.walk(st))
+            in_else = any(n is ys[0] for st in last.orelse for n in ast.walk(st))
+            if in_body == in_else or any(n is ys[0] for n in ast.walk(last.test)):
+                return None
+            block = last.body if in_body else last.orelse
+        elif isinstance(last, ast.For) and not last.orelse:
+            depth += 1
+            block = last.body
+        else:
+            return None
+    # the statements before the yield leave the generator only by return (bare) / break / continue of their own loops
+    for n in _own_nodes(fn):
+        if isinstance(n, ast.Return) and n.value is not None:
+            return None
+    return loop, chain, depth
+
+
+def _fusable(fn: ast.FunctionDef) -> Optional[Tuple[ast.For, List[Tuple[List[ast.stmt], int]], int]]:
+    return _yield_path(fn)
 
 
 class _RetToBreak(ast.NodeTransformer):
+    """a bare `return` directly in the generator's outer loop ends the iteration for good: `break` of the fused loop"""
+    def __init__(self) -> None:
+        self.depth = 0
+        self.ok = True
+
     def visit_Return(self, node: ast.Return) -> ast.AST:
+        if self.depth > 1:
+            self.ok = False
+            return node
         return ast.copy_location(ast.Break(), node)
 
     def visit_For(self, node: ast.For) -> ast.AST:
+        self.depth += 1
+        self.generic_visit(node)
+        self.depth -= 1
         return node
 
-    visit_While = visit_For   # type: ignore
+    def visit_While(self, node: ast.While) -> ast.AST:
+        self.depth += 1
+        self.generic_visit(node)
+        self.depth -= 1
+        return node
+
+    def visit_FunctionDef(self, node: ast.FunctionDef) -> ast.AST:
+        return node
+
+    visit_Lambda = visit_FunctionDef      # type: ignore
 
 
 def _fuse(consumer: ast.For, fn: ast.FunctionDef, call: ast.Call, serial: int) -> Optional[ast.For]:
-    shape = _fusable(fn)
+    shape = _yield_path(fn)
     if shape is None or consumer.orelse:
         return None
-    loop, guards, yielded = shape
+    loop, _chain, depth = shape
+    if depth > 1 and any(isinstance(n, ast.Break) for st in consumer.body for n in _own_stmt_nodes(st)):
+        return None         # a `break` of the consumer would have to leave several loops of the generator at once
     a = fn.args
     if a.vararg or a.kwarg or a.posonlyargs or a.kwonlyargs:
         return None
@@ -196,32 +241,86 @@ def _fuse(consumer: ast.For, fn: ast.FunctionDef, call: ast.Call, serial: int) -
             actual[p] = defaults[p]
     if not all(_simple_arg(x) for x in actual.values()):
         return None
-    # parameters must not be re-bound inside the generator
     stored = {n.id for n in ast.walk(loop) if isinstance(n, ast.Name) and isinstance(n.ctx, ast.Store)}
     if stored & set(actual):
         return None
     ren: Dict[str, Any] = dict(actual)
     for nm in stored:
         ren[nm] = "_g%d_%s" % (serial, nm)
-    r = _Rename(ren)
-    guards2 = [_RetToBreak().visit(r.visit(copy.deepcopy(g))) for g in guards]
-    iter2 = r.visit(copy.deepcopy(loop.iter))
-    target2 = r.visit(copy.deepcopy(loop.target))
-    yielded2 = r.visit(copy.deepcopy(yielded))
-    guard_names = {n.id for g in guards for n in ast.walk(g) if isinstance(n, ast.Name)}
-    loop_names = {n.id for n in ast.walk(loop.target) if isinstance(n, ast.Name)}
-    if isinstance(yielded, ast.Name) and isinstance(loop.target, ast.Name) and yielded.id == loop.target.id and not (guard_names & loop_names):
-        new = ast.For(target=consumer.target, iter=iter2, body=guards2 + list(consumer.body), orelse=[], type_comment=None)
+    new_loop = copy.deepcopy(loop)
+    # locate the yield in the copy (same path), then rename, then splice the consumer in
+    ypath = _yield_path(ast.FunctionDef(name=fn.name, args=fn.args, body=[new_loop], decorator_list=[], returns=None, type_comment=None))
+    if ypath is None:
+        return None
+    _l, chain2, _d = ypath
+    block, idx = chain2[-1]
+    ystmt = block[idx]
+    yielded = ystmt.value.value if ystmt.value.value is not None else ast.Constant(value=None)     # type: ignore[attr-defined]
+    marker = ast.Pass()
+    block[idx] = marker
+    new_loop = _Rename(ren).visit(new_loop)
+    rb = _RetToBreak()
+    new_loop = rb.visit(new_loop)
+    if not rb.ok:
+        return None
+    yielded2 = _Rename(ren).visit(copy.deepcopy(yielded))
+    # simplest case: `for v in ITER: <guards>; yield v` consumed by `for T in G(..)` -> `for T in ITER: <guards>; BODY`
+    direct = (isinstance(yielded, ast.Name) and isinstance(loop.target, ast.Name) and yielded.id == loop.target.id and depth == 1
+              and not any(isinstance(n, ast.Name) and n.id == loop.target.id for st in loop.body for n in ast.walk(st) if n is not yielded)
+              and all(isinstance(x, (ast.Name, ast.Tuple, ast.List, ast.Store)) for x in ast.walk(consumer.target)))
+    splice: List[ast.stmt] = list(consumer.body)
+    if direct:
+        new_loop.target = consumer.target
     else:
         bind = ast.Assign(targets=[consumer.target], value=yielded2, lineno=consumer.lineno)
-        new = ast.For(target=target2, iter=iter2, body=guards2 + [bind] + list(consumer.body), orelse=[], type_comment=None)
+        splice = [bind] + splice
+    # put the consumer's statements where the marker is
+    done = False
+    for n in ast.walk(new_loop):
+        for fld in ("body", "orelse"):
+            lst = getattr(n, fld, None)
+            if isinstance(lst, list) and marker in lst:
+                k = lst.index(marker)
+                lst[k:k + 1] = splice
+                done = True
+    if not done:
+        return None
+    new = ast.For(target=new_loop.target, iter=new_loop.iter, body=new_loop.body, orelse=[], type_comment=None)
     ast.copy_location(new, consumer)
-    for g in guards2:
-        for n in ast.walk(g):
-            if hasattr(n, "lineno"):
+    for st in new.body:
+        for n in ast.walk(st):
+            if not any(n is x for cst in consumer.body for x in ast.walk(cst)) and hasattr(n, "lineno"):
                 n.lineno = consumer.lineno          # type: ignore[attr-defined]
     ast.fix_missing_locations(new)
     return new
+
+
+def _own_stmt_nodes(st: ast.AST):
+    """nodes of a statement that belong to the same loop level (not inside a nested loop / def)"""
+    stack = [st]
+    while stack:
+        n = stack.pop()
+        yield n
+        for c in ast.iter_child_nodes(n):
+            if isinstance(c, (ast.For, ast.While, ast.FunctionDef, ast.AsyncFunctionDef, ast.Lambda, ast.ClassDef)):
+                continue
+            stack.append(c)
+
+
+def _straight_line_parts(fn: ast.FunctionDef) -> Optional[List[Tuple[str, ast.AST]]]:
+    """T3: the body is nothing but `yield e` / `yield from x` statements: the generator is chain((e,), x, ...)"""
+    body = list(fn.body)
+    if body and isinstance(body[0], ast.Expr) and isinstance(body[0].value, ast.Constant) and isinstance(body[0].value.value, str):
+        body = body[1:]
+    parts: List[Tuple[str, ast.AST]] = []
+    for st in body:
+        if isinstance(st, ast.Expr) and isinstance(st.value, ast.Yield) and st.value.value is not None:
+            parts.append(("one", st.value.value))
+        elif isinstance(st, ast.Expr) and isinstance(st.value, ast.YieldFrom):
+            parts.append(("many", st.value.value))
+        else:
+            return None
+    return parts or None
 
 
 def canon_generators(trees: List[ast.Module]) -> Dict[str, str]:
@@ -250,8 +349,14 @@ def canon_generators(trees: List[ast.Module]) -> Dict[str, str]:
                 pp = parents.get(id(p))
                 if isinstance(pp, ast.For) and pp.iter is p:
                     uses[nm].append(("for", p, pp))
+                elif isinstance(pp, ast.comprehension) and pp.iter is p and isinstance(parents.get(id(pp)), (ast.ListComp, ast.SetComp, ast.DictComp)) \
+                        and parents[id(pp)].generators[0] is pp:        # type: ignore[union-attr]
+                    uses[nm].append(("eager", p, pp))
                 elif isinstance(pp, ast.Call) and isinstance(pp.func, ast.Name) and pp.func.id in EAGER and pp.args and pp.args[0] is p:
                     uses[nm].append(("eager", p, pp))
+                elif isinstance(pp, ast.Call) and isinstance(pp.func, ast.Attribute) and pp.func.attr in ("extend", "update", "join") and pp.args == [p] \
+                        and not pp.keywords:
+                    uses[nm].append(("eager", p, pp))        # xs.extend(G(..)) / s.update(G(..)) / sep.join(G(..)) drain it
                 else:
                     uses[nm].append(("other", p, pp))       # type: ignore[arg-type]
             else:
@@ -261,6 +366,35 @@ def canon_generators(trees: List[ast.Module]) -> Dict[str, str]:
     for nm, fns in sorted(gens.items()):
         fn = fns[0]
         us = uses[nm]
+        parts = _straight_line_parts(fn)
+        if parts is not None and us and all(k != "escape" for k, _c, _p in us) and not (fn.args.vararg or fn.args.kwarg or fn.args.kwonlyargs):
+            ok_all = True
+            plans = []
+            for kind, call, parent in us:
+                params = [p.arg for p in fn.args.args]
+                actual: Dict[str, ast.AST] = {}
+                if params and params[0] in ("self", "cls") and isinstance(call.func, ast.Attribute):      # type: ignore[attr-defined]
+                    actual[params[0]] = call.func.value        # type: ignore[attr-defined]
+                    params = params[1:]
+                if call.keywords or len(call.args) != len(params) or not all(_simple_arg(x) for x in call.args):      # type: ignore[attr-defined]
+                    ok_all = False
+                    break
+                actual.update(dict(zip(params, call.args)))       # type: ignore[attr-defined]
+                plans.append((call, actual))
+            if ok_all:
+                for call, actual in plans:
+                    serial += 1
+                    it, m = "_g%d_it" % serial, "_g%d_m" % serial
+                    pieces = [ast.Tuple(elts=[_Rename(actual).visit(copy.deepcopy(e))], ctx=ast.Load()) if k == "one" else _Rename(actual).visit(copy.deepcopy(e))
+                              for k, e in parts]
+                    gen = ast.GeneratorExp(elt=ast.Name(id=m, ctx=ast.Load()), generators=[
+                        ast.comprehension(target=ast.Name(id=it, ctx=ast.Store()), iter=ast.Tuple(elts=pieces, ctx=ast.Load()), ifs=[], is_async=0),
+                        ast.comprehension(target=ast.Name(id=m, ctx=ast.Store()), iter=ast.Name(id=it, ctx=ast.Load()), ifs=[], is_async=0)])
+                    ast.copy_location(gen, call)
+                    ast.fix_missing_locations(gen)
+                    _replace_node(trees, call, gen)
+                done[nm] = "a chain of its parts at every use"
+                continue
         if us and all(k == "eager" for k, _c, _p in us):
             if _to_list_builder(fn):
                 done[nm] = "list builder (every use drains it at once)"
@@ -277,3 +411,17 @@ def canon_generators(trees: List[ast.Module]) -> Dict[str, str]:
             parent.target, parent.iter, parent.body, parent.orelse = new.target, new.iter, new.body, new.orelse      # type: ignore[attr-defined]
             done[nm] = "fused into the loops that iterate it"
     return done
+
+
+def _replace_node(trees: List[ast.Module], old: ast.AST, new: ast.AST) -> None:
+    for tree in trees:
+        for n in ast.walk(tree):
+            for fld, val in ast.iter_fields(n):
+                if val is old:
+                    setattr(n, fld, new)
+                    return
+                if isinstance(val, list):
+                    for i, x in enumerate(val):
+                        if x is old:
+                            val[i] = new
+                            return
